@@ -5,6 +5,8 @@ From CB Require Import Machine ReaderBound.
 Import ListNotations.
 Open Scope Z_scope.
 
+#[local] Existing Instance std_rec.
+
 (* for every configuration, every log at every step and every choice of the event each load
    returns (i.e. whatever the writer does or does not do): a step that does not end the call
    strictly decreases a non-negative measure *)
